@@ -347,3 +347,44 @@ Example C09_example_rto :
   rows_wf 2 ex_re /\ Forall (fun p => 0 <= ls_w (fst p))%Qc ex_re /\ Forall (fun p => ls_s (fst p) * ls_s (fst p) = ls_w (fst p))%Qc ex_re /\
   (exists x, rto_draw 2 ex_re = Some x) /\ (exists m, rto_draw 2 (quiet ex_re) = Some m).
 Proof. exact ex_re_ok. Qed.
+
+(* the stacked rows ARE the conditional: for every factor list sp (the Gaussian factors of the joint that involve block i, in
+   the sampler's stacking order), every assignment a, block i whose value does not enter a precision, and every value p of
+   the block:  -1/2 sum_r W_r (c_r - <a_r, p>)^2 over the rows ls_rows builds at a  =  the sum of those factors of the
+   surrogate joint (Model/C09_Gibbs.v gfac_val) at (the other blocks of a, block i := p).  Together with
+   C09_ls_block_rows_current (a = current_samples at the transition) and C09_rto_draw_conditional (the draw has the mean and
+   precision of qcond over these rows): a LinearRTO block is drawn from the joint's conditional given the current other
+   blocks.  (That sp lists exactly the joint's factors involving block i is checked per case at the probe points: ls_tied;
+   UGLA's Laplace rows approximate a non-Gaussian factor by design and are outside this statement.) *)
+From CV Require Import Proofs.C09_LsTie.
+Theorem C09_ls_rows_conditional : forall (sp : lsspec) (i : nat) (a : list vec) (p : vec),
+  i < length a -> length p = length (nth i a []) ->
+  (forall gl, In gl sp -> g_w (fst gl) <> inl i) ->
+  (ls_q (ls_rows sp i a) p == fold_right (fun gl acc => gfac_val (upd a i p) (fst gl) + acc) 0 sp)%Q.
+Proof. exact ls_rows_conditional. Qed.
+Print Assumptions C09_ls_rows_conditional.
+
+Example C09_example_ls :
+  let sp : lsspec := [(mkGF (inl 1%nat) [mkRow 1%Q [[1%Q]; []]], None)] in
+  let a : list vec := [[0]; [2]]%Q in
+  0 < length a /\ length ([3]%Q : vec) = length (nth 0 a []) /\ (forall gl, In gl sp -> g_w (fst gl) <> inl 0).
+Proof. cbn. split; [lia | split; [reflexivity | ]]. intros gl [<- | []]. cbn. discriminate. Qed.
+
+(* RegularizedLinearRTO with the non-negativity constraint (implicit prior: the conditional is DEFINED as the law of the
+   constrained perturbed least-squares solution): if the model's constrained draw nnls_draw -- the function the
+   correspondence evaluates for these blocks -- returns x, then x >= 0 and x minimises the perturbed objective
+   pobj(y) = 1/2 sum_r w_r (c_r - <a_r,y>)^2 - sum_r s_r e_r <a_r,y>   ( = 1/2 |S (A y - c) - e|^2 + const when s_r^2 = w_r )
+   over ALL y >= 0, for every row list with non-negative precisions, every size and every noise vector.
+   (The sampler's FISTA iteration is not modelled: its result is compared with this exact minimiser to 1e-5.) *)
+From CV Require Import Model.C09_Nnls Proofs.C09_Nnls.
+Theorem C09_nnls_draw_optimal : forall (n : nat) (re : noisy) (x : list Qc),
+  rows_wf n re -> Forall (fun p => 0 <= ls_w (fst p))%Qc re -> nnls_draw n re = Some x ->
+  length x = n /\ (forall a, In a x -> (0 <= a)%Qc) /\
+  forall y, length y = n -> (forall a, In a y -> (0 <= a)%Qc) -> (pobj re x <= pobj re y)%Qc.
+Proof. exact nnls_draw_optimal. Qed.
+Print Assumptions C09_nnls_draw_optimal.
+
+(* non-vacuity: rows for which the constrained draw exists and differs from the unconstrained one *)
+Example C09_example_nnls : rows_wf 2 ex_nn /\ Forall (fun p => 0 <= ls_w (fst p))%Qc ex_nn /\
+  (exists x, nnls_draw 2 ex_nn = Some x /\ rto_draw 2 ex_nn <> Some x).
+Proof. exact ex_nn_ok. Qed.
